@@ -32,6 +32,7 @@ def step (st : DState) (line : String) : DState × String :=
   | "box" :: args => (st, GeomD.handleBox args impl)
   | "geom" :: args => (st, GeomD.handleGeom args impl)
   | "own" :: args => (st, OwnD.handle args impl)
+  | "ownc" :: args => (st, OwnD.handle args impl)   -- boxes moved after `gen_vertices`: the answer depends on the current fields only
   | "py" :: args => (st, PyD.handle args impl)
   | "feat" :: args => (st, FeatD.handle args impl)
   | "vote" :: args => (st, VoteD.handle args impl)
